@@ -96,13 +96,14 @@ const (
 
 func (v Verdict3) String() string { return [...]string{"either", "must-refuse", "plain"}[v] }
 
-// hardControl are the characters the model is sure about: line breaks and the classic
-// non-printing controls. Tabs, C1 controls, zero-width and bidi marks are left open.
+// hardControl are the characters the model is sure about: the control characters (Unicode category Cc): line
+// breaks, the classic non-printing C0 controls and DEL, and the C1 controls U+0080..U+009F (NEL is a line break,
+// CSI introduces terminal escape sequences). Tabs, zero-width and bidi marks are left open.
 func hardControl(s string) bool {
 	for _, r := range s {
 		switch {
 		case r == '\t':
-		case r < 0x20, r == 0x7f:
+		case r < 0x20, r == 0x7f, r >= 0x80 && r <= 0x9f:
 			return true
 		}
 	}
@@ -111,7 +112,7 @@ func hardControl(s string) bool {
 
 func softSuspicious(s string) bool {
 	for _, r := range s {
-		if r == '\t' || (r >= 0x80 && r <= 0x9f) || r == 0x200b || r == 0x202e || r == 0xfeff {
+		if r == '\t' || r == 0x200b || r == 0x202e || r == 0xfeff {
 			return true
 		}
 	}
